@@ -21,6 +21,13 @@ def main():
         refs = [p for i, p in enumerate(refs) if i % 3 == k]
     patches += [("refactor", p) for p in refs]
     res = {"seeds": {}, "refactors": {}}
+    expected = set()
+    try:
+        for ln in open(os.path.join(here, "seeded", "EXPECTED_MISSES.txt")):
+            if ln.strip() and not ln.startswith("#"):
+                expected.add(ln.split()[0])
+    except OSError:
+        pass
 
     def one(item):
         kind, pf = item
@@ -37,6 +44,8 @@ def main():
             rc = subprocess.run([os.path.join(here, "bin", "pvcheck"), "-repo", dst, "-out", out, "-property", prop, "-tier", "quick"],
                                 capture_output=True, text=True).returncode
             if kind == "seed":
+                if rc == 0 and name in expected:
+                    return kind, name, "not reported (expected, see seeded/EXPECTED_MISSES.txt)"
                 return kind, name, "reported" if rc == 1 else ("MISSED" if rc == 0 else "checker error")
             return kind, name, "silent" if rc == 0 else ("FALSE ALARM" if rc == 1 else "checker error")
         finally:
